@@ -26,7 +26,11 @@
 (***************************************************************************)
 EXTENDS Limits
 
-CONSTANTS ChunkBytes, CMax
+CONSTANTS ChunkBytes, CMax,
+          Variant    \* "faithful", or a named deviation used by bin/selftest to show the invariants are not vacuous:
+                     \* "depth_ge" (limit test >=), "vec_no_ascend" (missing ascend after a vector),
+                     \* "reserve_all" (reserve the claimed count at once), "count_wrap" (counter wraps),
+                     \* "mem_gt" (memory limit test >), "bool_any" (any non-zero byte is true)
 
 Dummy == [k |-> "unit", sz |-> 0]
 Fr(op, t, n, x) == [op |-> op, t |-> t, n |-> n, x |-> x]
@@ -48,14 +52,18 @@ DropV(m, n) == [m EXCEPT !.vs = SubSeq(@, n + 1, Len(@))]
 \* ---- Input calls as seen through the wrapper stack
 CanRead(cfg, m, n) == m.pos + n <= Len(cfg.inp)
 Rd(cfg, m, n) == [m EXCEPT !.pos = @ + n,
-                           !.count = IF cfg.counted THEN MinOf(@ + n, CMax) ELSE @]
+                           !.count = IF ~cfg.counted THEN @
+                                     ELSE IF Variant = "count_wrap" THEN (@ + n) % (CMax + 1)
+                                     ELSE MinOf(@ + n, CMax)]
 Desc(cfg, m) ==
   LET m1 == [m EXCEPT !.depth = @ + 1, !.dmax = MaxOf(@, m.depth + 1)] IN
-  IF cfg.dlim # -1 /\ m1.depth > cfg.dlim THEN FailM(m1, "depth") ELSE m1
+  IF cfg.dlim # -1 /\ (IF Variant = "depth_ge" THEN m1.depth >= cfg.dlim ELSE m1.depth > cfg.dlim)
+  THEN FailM(m1, "depth") ELSE m1
 Asc(m) == [m EXCEPT !.depth = @ - 1]
 Alloc(cfg, m, n) ==
   LET m1 == [m EXCEPT !.used = @ + n, !.nal = @ + 1] IN
-  IF cfg.mlim # -1 /\ m1.used >= cfg.mlim THEN FailM(m1, "mem") ELSE m1
+  IF cfg.mlim # -1 /\ (IF Variant = "mem_gt" THEN m1.used > cfg.mlim ELSE m1.used >= cfg.mlim)
+  THEN FailM(m1, "mem") ELSE m1
 Hold(m, n) == [m EXCEPT !.heap = @ + n, !.hmax = MaxOf(@, m.heap + n)]
 
 Bytes(cfg, a, n) == SubSeq(cfg.inp, a + 1, a + n)
@@ -86,8 +94,8 @@ StepDec(cfg, m, t) ==
          THEN PushV(Pop(Rd(cfg, m, t.w)), Bytes(cfg, m.pos, t.w)) ELSE FailM(m, "data")
     [] t.k = "unit" -> PushV(Pop(m), <<>>)
     [] t.k = "bool" ->
-         IF CanRead(cfg, m, 1) /\ cfg.inp[m.pos + 1] \in {0, 1}
-         THEN PushV(Pop(Rd(cfg, m, 1)), cfg.inp[m.pos + 1] = 1) ELSE FailM(m, "data")
+         IF CanRead(cfg, m, 1) /\ (Variant = "bool_any" \/ cfg.inp[m.pos + 1] \in {0, 1})
+         THEN PushV(Pop(Rd(cfg, m, 1)), cfg.inp[m.pos + 1] # 0) ELSE FailM(m, "data")
     [] t.k = "optbool" ->
          IF CanRead(cfg, m, 1) /\ cfg.inp[m.pos + 1] \in {0, 1, 2}
          THEN LET b == cfg.inp[m.pos + 1] IN
@@ -161,7 +169,9 @@ StepLen(cfg, m0, t) ==
                    IF m2.status # "run" THEN m2 ELSE Pop(PushV(Asc(m2), [rep |-> dig]))
          ELSE LET m1 == Desc(cfg, m) IN
               IF m1.status # "run" THEN m1
-              ELSE Cont(PushV(m1, <<>>), <<Fr("chunks", t.t, n, 0), Fr("ascend", Dummy, 0, 0), Fr("seqfin", t, 0, 0)>>)
+              ELSE Cont(PushV(m1, <<>>), <<Fr("chunks", t.t, n, 0)>>
+                                          \o (IF Variant = "vec_no_ascend" THEN <<>> ELSE <<Fr("ascend", Dummy, 0, 0)>>)
+                                          \o <<Fr("seqfin", t, 0, 0)>>)
     [] t.k \in {"map", "set"} ->
          LET m1 == Desc(cfg, m) IN
          IF m1.status # "run" THEN m1
@@ -192,10 +202,10 @@ StepBulk(cfg, m, fr) ==
 StepChunks(cfg, m, fr) ==
   IF fr.n = 0 THEN Pop(m)
   ELSE LET sz == ElemSize(cfg.E, fr.t)
-           c == MinOf(ChunkLen(sz), fr.n)
+           c == IF Variant = "reserve_all" THEN fr.n ELSE MinOf(ChunkLen(sz), fr.n)
            m1 == Alloc(cfg, m, IF c = Huge THEN 0 ELSE c * sz)
        IN IF m1.status # "run" THEN m1
-          ELSE Cont(Hold(m1, IF c = Huge THEN 0 ELSE c * sz),
+          ELSE Cont(Hold(m1, IF c = Huge THEN (IF sz = 0 THEN 0 ELSE Huge) ELSE c * sz),
                     <<Fr("elems", fr.t, c, 0), Fr("chunks", fr.t, IF fr.n = Huge THEN Huge ELSE fr.n - c, 0)>>)
 
 \* n elements, one after the other, appended to the list on the value stack
